@@ -195,6 +195,10 @@ func (t *T) RunUntilCrash(k int, f func()) bool {
 // the handler directly; natively nil — harnesses send a real request instead).
 func (t *T) Served(addr string) http.Handler { return nil }
 
+// QuiesceTimers is Quiesce with a bound on the number of timers that may fire
+// while waiting (engine; natively a plain Quiesce).
+func (t *T) QuiesceTimers(n int) { t.Quiesce() }
+
 // YieldOnRead selects the engine's second deterministic schedule: a goroutine
 // that reads file content (a hash pass) lets every other runnable goroutine
 // run first (engine only).
